@@ -109,6 +109,11 @@ pub fn run_case(p: &dyn DetectProp, cx: &mut Ctx, case: &Case) {
         let model = model_detect(cx.drv, &case.bytes, &case.sett);
         cx.rep.model_rounds += model.rounds as u64;
         cx.rep.t3_compared += 1;
+        if let Ok(mut g) = crate::detect::ANSWER_PANICS.lock() {
+            for (what, input) in g.drain(..) {
+                cx.rep.fail("oracle", &format!("{}:library-panicked-while-answering-the-model", p.id()), &what, &input, Some(&case.sett), &case.tag);
+            }
+        }
         let (a, b) = (p.slice(&real), p.slice(&model.outcome));
         if a != b {
             cx.rep.fail(
